@@ -118,7 +118,7 @@ fn prelude() -> Vec<Stmt> {
     ]
 }
 
-pub const N_CONTEXTS: usize = 27;
+pub const N_CONTEXTS: usize = 28;
 
 /// The `c`-th one-hole context around `e` (single module unless stated).
 pub fn context(c: usize, e: &E) -> Program {
@@ -232,6 +232,16 @@ pub fn context(c: usize, e: &E) -> Program {
             st.push(fun("g", &["x"], h()));
             st.push(res_get(E::Content(vec![], None)));
         }
+        27 => st.push(Stmt::Res(rel(
+            // a transfer that has a domain, with the expression as its range
+            uri_lit(&[""]),
+            vec![E::Xfer {
+                methods: vec![Method::Put],
+                params: None,
+                domain: Some(Box::new(E::Content(vec![], Some(Box::new(obj(vec![])))))),
+                range: Box::new(h()),
+            }],
+        ))),
         _ => unreachable!(),
     }
     let mut modules = vec![Module {
